@@ -7,7 +7,12 @@ Correspondence (model `Cutadapt.Kmer` vs. the code built from the working tree):
   finderkind    type of adapter.kmer_finder (MockKmerFinder vs KmerFinder)
   kmerspresent  adapter.kmer_finder.kmers_present(sequence) — whenever the verdict is a function of the read
 Oracle = the property: the same adapter configuration with its real finder and with MockKmerFinder must report the
-same match (or none) for every read."""
+same match (or none) for every read.
+
+Failure signatures: the three classes known from the design phase (anchored-or-noninternal-indel-window,
+anywhere-read-inside-adapter, window-beyond-read), two classes found while this check was built
+(regular-partial-overlap-indel-window: regular 3'/5'/rightmost adapters with >= 2 allowed errors, found by an adversarial
+placement of insertions; nul-in-read-vs-n-wildcard), and C07/other for anything not yet understood."""
 import itertools
 
 import gens
